@@ -263,6 +263,10 @@ class AsyncSocket(base_socket.BaseSocket):
                 # if we get an unexpected exception we log the error and exit
                 # the connection properly
                 self.server.logger.exception('Unknown receive error')
+            if self.closed:
+                # the session ended (CLOSE packet, or closed by another task):
+                # do not process anything else that was received on this socket
+                break
 
         await self.queue.put(None)  # unlock the writer task so it can exit
         await asyncio.wait_for(writer_task, timeout=None)
